@@ -186,7 +186,10 @@ static void case_direct(const Args &a, long idx, bool wantDesc, CaseResult &res)
     for (int p = 0; p < passes; p++) { int goals = reuse ? (int)R.ri(1, 3) : 1; std::vector<Goal> gs; JArr gj;
         for (int g = 0; g < goals; g++) { Goal G; JArr one; int k = (int)R.ri(1, std::max(1, n / 2)); for (int q = 0; q < k; q++) { unsigned id = (unsigned)R.ri(0, n - 1); double d = grid ? 5.0 * R.ri(-20, 20) : R.rd(-100, 100); double w = R.coin(0.5) ? 10000 : 1; G.id.push_back(id); G.d.push_back(d); G.w.push_back(w); one.raw(JArr().i(id).num(d).num(w).done()); } gs.push_back(G); gj.raw(one.done()); }
         plan.push_back(gs); pj.raw(gj.done()); }
-    std::string desc = JObj().b("grid", grid).raw("rects_x_y_w_h", rj.done()).raw("edges", ej.done()).i("first_dim", firstDim).b("instance_reused_for_several_goals", reuse).raw("passes_goals_node_move_weight", pj.done()).done();
+    // resizes (topology::applyResizes, what ColaTopologyAddon::handleResizes calls): 1-2 nodes get a new box after pass number resizeAfter
+    struct RZ { unsigned id; double fx, fy; bool keepCentre; }; std::vector<RZ> rz; int resizeAfter = -1; JArr zj;
+    if (R.coin(0.4)) { resizeAfter = (int)R.ri(0, passes - 1); int k = (int)R.ri(1, 2); std::set<unsigned> used; for (int q = 0; q < k; q++) { unsigned id = (unsigned)R.ri(0, n - 1); if (!used.insert(id).second) continue; RZ z{id, grid ? 0.5 * R.ri(1, 4) : R.rd(0.5, 2.0), grid ? 0.5 * R.ri(1, 4) : R.rd(0.5, 2.0), R.coin()}; rz.push_back(z); zj.raw(JObj().i("node", id).num("width_factor", z.fx).num("height_factor", z.fy).b("keep_centre", z.keepCentre).done()); } }
+    std::string desc = JObj().b("grid", grid).raw("rects_x_y_w_h", rj.done()).raw("edges", ej.done()).i("first_dim", firstDim).b("instance_reused_for_several_goals", reuse).raw("passes_goals_node_move_weight", pj.done()).i("resize_after_pass", resizeAfter).raw("resizes", zj.done()).done();
     Digest D; D.s(desc); res.digest = D.h; res.gen = std::string(grid ? (gap == 0 ? "grid-touching" : "grid-gap5") : "real") + (reuse ? "/reused-instance" : "/one-goal-per-instance");
     if (wantDesc) res.desc = desc;
     topology::Nodes tn; for (int i = 0; i < n; i++) tn.push_back(new topology::Node((unsigned)i, rs[i]));
@@ -217,6 +220,15 @@ static void case_direct(const Args &a, long idx, bool wantDesc, CaseResult &res)
             }
         }
         for (auto c : cs) delete c; for (auto v : vs) delete v;
+        if (p == resizeAfter && !mon.stop && !rz.empty()) {
+            vpsc::Variables xvs, yvs; vpsc::Constraints xcs, ycs; std::vector<vpsc::Rectangle *> targets; topology::ResizeMap rm;
+            for (int i = 0; i < n; i++) { xvs.push_back(new vpsc::Variable(i, rs[i]->getCentreX(), 1)); yvs.push_back(new vpsc::Variable(i, rs[i]->getCentreY(), 1)); }
+            for (auto &z : rz) { const vpsc::Rectangle *r = rs[z.id]; double w = r->width() * z.fx, h = r->height() * z.fy, x = z.keepCentre ? r->getCentreX() - w / 2 : r->getMinX(), y = z.keepCentre ? r->getCentreY() - h / 2 : r->getMinY();
+                vpsc::Rectangle *t = new vpsc::Rectangle(x, x + w, y, y + h); targets.push_back(t); rm.insert(std::make_pair(z.id, topology::ResizeInfo(tn[z.id], t))); }
+            set_stage("topology::applyResizes"); topology::applyResizes(tn, routes, nullptr, rm, xvs, xcs, yvs, ycs); mon.iters++; res.count("resizes_applied", (long)rz.size());
+            set_stage("check-after-resize"); std::string ks = mon.keySuffix; mon.keySuffix = ks.substr(0, ks.size() - 1) + ",after-applyResizes]"; mon.check(); mon.keySuffix = ks;
+            for (auto v : xvs) delete v; for (auto v : yvs) delete v; for (auto c : xcs) delete c; for (auto c : ycs) delete c; for (auto t : targets) delete t;
+        }
     }
     for (auto e : routes) delete e; for (auto nd : tn) delete nd;
     res.count("direct_cases_judged"); res.count(std::string("direct_cases_") + (grid ? "grid" : "real") + (reuse ? "_reused_instance" : "_one_goal")); res.count("solve_calls_monitored", solves); if (capped) res.count("goals_cut_off_after_100_solves");
